@@ -5,7 +5,7 @@
    chi2 D c = sum_i w_i (row_i . c - y_i)^2 with row_i the design row of x_i, i.e. sum invvar*(spline(x)-y)^2. *)
 From Coq Require Import QArith List Bool Arith.
 Import ListNotations.
-From PV Require Import Lib.WLS BSpline.Eval BSpline.Fit BSpline.CoxDeBoor BSpline.FitProofs BSpline.BandProofs Generated.BSpline BSpline.GenBridge C09.Model C09.Proofs.
+From PV Require Import Lib.WLS BSpline.Eval BSpline.Fit BSpline.CoxDeBoor BSpline.FitProofs BSpline.BandProofs Generated.BSpline BSpline.GenBridge C09.Model C09.Proofs C09.Triangular.
 Open Scope Q_scope.
 
 (* the fit's coefficients minimise the weighted chi-square over ALL coefficient vectors *)
@@ -191,6 +191,34 @@ Theorem C09_generated_cholesky_screen : forall bmask k diag mininf,
      end).
 Proof. exact gen_cholesky_screen. Qed.
 Print Assumptions C09_generated_cholesky_screen.
+
+(* ---- round 5: back substitution and the complete Cholesky solve *)
+Theorem C09_back_substitution_solves : forall (n : nat) (U : nat -> nat -> Q) (b : nat -> Q),
+  (forall i c, (c < i)%nat -> U i c == 0) ->
+  (forall i, (i < n)%nat -> ~ U i i == 0) ->
+  let x := fun c => nth c (back_list U b n) 0 in
+  forall i, (i < n)%nat -> sumf (fun c => U i c * x c) n == b i.
+Proof. exact back_substitution_solves. Qed.
+Print Assumptions C09_back_substitution_solves.
+
+(* A = L L^T with L lower triangular, non-zero diagonal: forward then back substitution returns x with A x = b *)
+Theorem C09_cholesky_solve_solves : forall (n : nat) (L A : nat -> nat -> Q) (b : nat -> Q),
+  (forall i j, (i < n)%nat -> (j < n)%nat -> A i j == sumf (fun c => L i c * L j c) n) ->
+  (forall i c, (i < c)%nat -> L i c == 0) ->
+  (forall i, (i < n)%nat -> ~ L i i == 0) ->
+  let x := fun c => nth c (chol_solve_list L b n) 0 in
+  forall i, (i < n)%nat -> sumf (fun j => A i j * x j) n == b i.
+Proof. exact cholesky_solve_solves. Qed.
+Print Assumptions C09_cholesky_solve_solves.
+
+(* non-vacuity: L = [[2,0,0],[1,3,0],[-1,2,1]], b = (2, 7, 3): A = L L^T = [[4,2,-2],[2,10,5],[-2,5,6]], x = (44/9, -37/9, 11/2) *)
+Example C09_example_cholesky_solve :
+  let L := fun i c => nth c (nth i [[2; 0; 0]; [1; 3; 0]; [-1; 2; 1]] []) 0 in
+  let A := fun i j => nth j (nth i [[4; 2; -2]; [2; 10; 5]; [-2; 5; 6]] []) 0 in
+  let b := fun i => nth i [2; 7; 3] 0 in
+  let x := chol_solve_list L b 3 in
+  forallb (fun i => Qeq_bool (sumf (fun j => A i j * nth j x 0) 3) (b i)) [0; 1; 2]%nat && (length x =? 3)%nat = true.
+Proof. vm_compute. reflexivity. Qed.
 
 (* non-vacuity: a concrete cubic fit is solved by the certified solver and recovers a quadratic exactly *)
 Example C09_example_recovery :
